@@ -34,8 +34,13 @@ OPTION_VALUES = {"overload_scaling_factor": [0.001, 0.5, 0.01], "nominal_voltage
                  "min_r_ohm": [0.001, 1.0], "max_x_ohm": [100., 0.1], "capacitance_scaling_factor": [0.01, 0.5],
                  "numba_tolerance": [1e-5, 1e-12], "ppsim_unknown_option": [1, 2]}
 REAL_CLASSES = ["ImplausibleImpedanceValues", "NominalVoltagesMismatch", "WrongLineCapacitance", "Overload",
-                "DisconnectedElements", "InvalidValues"]
-DEFECTS = ["overload", "open_switch", "line_off", "tiny_line", "bus_off", "none", "none"]
+                "DisconnectedElements", "InvalidValues", "SlackGenPlacement", "SubNetProblemTest", "OptimisticPowerflow",
+                "WrongSwitchConfiguration", "MissingBusIndices", "DifferentVoltageLevelsConnected",
+                "WrongReferenceSystem", "NumbaComparison", "DeviationFromStdType", "ParallelSwitches", "NoExtGrid",
+                "MultipleVoltageControllingElementsPerBus", "TestContinuousBusIndices"]
+DEFECTS = ["overload", "open_switch", "line_off", "tiny_line", "bus_off", "none", "none", "zones", "gen_at_ext_grid_bus",
+           "invalid_value", "parallel_switches", "std_type_deviation", "negative_load", "second_slack_gen",
+           "overload+zones", "overload+second_slack_gen"]
 
 
 PRISTINE = {}
@@ -172,6 +177,33 @@ def build_net(op):
     elif d == "bus_off":
         b = ops.pick([b for b in net.bus.index if b not in set(net.ext_grid.bus)], k)
         net.bus.at[b, "in_service"] = False
+    import pandapower as pp
+    if "overload+" in d:
+        net.load["scaling"] = 80.
+    if "zones" in d:
+        net.bus["zone"] = ["north" if (j + k) % 2 else "south" for j in range(len(net.bus))]
+    if d == "gen_at_ext_grid_bus":
+        pp.create_gen(net, int(net.ext_grid.bus.iloc[0]), p_mw=0.1, vm_pu=1.0)
+    elif d == "invalid_value":
+        l = ops.pick(net.line.index.tolist(), k)
+        net.line.at[l, "length_km"] = -1.0
+    elif d == "parallel_switches":
+        b1 = ops.pick(net.bus.index.tolist(), k)
+        b2 = ops._same_level_bus(net, b1, k + 1)
+        if b2 is not None:
+            pp.create_switch(net, int(b1), int(b2), "b", closed=False)
+            pp.create_switch(net, int(b1), int(b2), "b", closed=False)
+    elif d == "std_type_deviation":
+        l = ops.pick(net.line.index.tolist(), k)
+        net.line.at[l, "r_ohm_per_km"] = float(net.line.at[l, "r_ohm_per_km"]) * 1.5
+    elif d == "negative_load":
+        l = ops.pick(net.load.index.tolist(), k)
+        net.load.at[l, "p_mw"] = -abs(float(net.load.at[l, "p_mw"]))
+    if "second_slack_gen" in d:
+        b = ops.pick([b for b in net.bus.index if b not in set(net.ext_grid.bus)], k)
+        pp.create_gen(net, int(b), p_mw=0.2, vm_pu=1.0, slack=False)
+        pp.create_gen(net, int(ops.pick([x for x in net.bus.index if x not in set(net.ext_grid.bus) and x != b], k + 1)),
+                      p_mw=0.1, vm_pu=1.0, slack=True)
     return net
 
 
